@@ -11,7 +11,7 @@ CHECKS = {
          "Every signed artefact the handlers emit in the run (assertions on POST / body / SOAP delivery, redirect query signatures, signed metadata) is verified on its wire bytes by two independent verifiers with the certificate the IdP publishes; users with several kB of incompressible data, key rotations on long-lived providers and configurations in which signing cannot succeed are included.",
          "Trusts crypto/rsa, hashlib, expat; V1 and V2 jointly.", "DESIGN.md §5 C04"),
  "C05": ("exploration", "signed-set membership monitor over the storage event log (what was persisted vs. what the simulated SPs really signed)",
-         "40 configurations x 19 mutation families of validly signed messages are sent to the real SSO handler; whenever a request is accepted although signing was required or a signature value was present, the persisted content must be exactly something the registered key signed. One family smuggles forged values beside a genuine triple sent in another percent-encoding style; a ninth of the cases runs while the key storage is failing. Rejection is always allowed, so the monitor cannot raise a false alarm on stricter code.",
+         "40 configurations x 20 mutation families of validly signed messages are sent to the real SSO handler; whenever a request is accepted although signing was required or a signature value was present, the persisted content must be exactly something the registered key signed. One family smuggles forged values beside a genuine triple sent in another percent-encoding style; a ninth of the cases runs while the key storage is failing. Rejection is always allowed, so the monitor cannot raise a false alarm on stricter code.",
          "Trusts the harness's own signer (crypto/rsa, goxmldsig SigningContext) and the event log; R2 is not judged when parameter occurrences in query and body differ.", "DESIGN.md §5 C05"),
  "C06": ("exploration", "label-by-construction monitor plus independent (expat) re-evaluation of every accepted request",
          "Conformant requests with 0-2 labelled deviations are sent to the real SSO handler; a labelled deviation must never be accepted, and every accepted request is decoded independently and all necessary conditions are re-evaluated against the call's time bracket; sequential and concurrent multi-host workloads (six clients of three hosts in flight on one provider, delays inside storage calls) send requests that carry another host's location.",
